@@ -67,7 +67,7 @@ fn one<C: Suite>(ctx: &mut Ctx, g: u64, scheme: Scheme, t: usize, nn: usize, exh
     let mut rng = ctx.rng(g);
     let n = C::NAME;
     let sn = scheme.name();
-    let k = gen::random_scalar(&mut rng);
+    let k = gen::key_for(g, &mut rng); // every fourth case: an edge scalar
     let sk = sk_from_rs::<C>(&k);
     let pk = sk.public_key();
     let len = gen::LENGTHS_SMALL[idx % gen::LENGTHS_SMALL.len()];
